@@ -115,7 +115,7 @@ inline bool run_case(Engine& E, const Plan& p, Rng& r, LinStats& ls) {
     Lin res = Lin::OK; uint64_t steps = 0;
     if (out.fail_key.empty()) {
         if (n <= 62) {
-            res = wgl_check(out.ops, E.out_initial, cap, 400000, &steps);
+            res = wgl_check(out.ops, E.out_initial, cap, 3000000, &steps);
             R.stat_max("max_wgl_steps", (long long)steps);
             if (res == Lin::OK) { ls.checked++; R.stat(std::string("wgl_ok_") + (char)p.cls); }
             else if (res == Lin::BUDGET) { ls.budget++; R.inconclusive++; R.stat("wgl_budget"); }
